@@ -400,6 +400,21 @@ func init() {
 						}
 					}
 				}
+				if len(ips) > 0 && rng.Intn(3) == 0 {
+					// the SAME address once more - byte for byte, or in its other form (4-byte <-> IPv4-mapped): an
+					// address does not become reserved, or public, by being listed twice
+					d := append(net.IP{}, ips[rng.Intn(len(ips))]...)
+					if v4 := d.To4(); v4 != nil && rng.Intn(2) == 0 {
+						if len(d) == 4 {
+							d = append(append(make(net.IP, 10), 0xff, 0xff), v4...)
+						} else {
+							d = append(net.IP{}, v4...)
+						}
+					}
+					ips = append(ips, d)
+					gns = append(gns, gen.GNIP(d))
+					c.R.Count("san_ip_repeated_entries", 1)
+				}
 				spec := gen.TLSLeaf(nb, "www.example.com")
 				for k, e := range spec.Exts {
 					if der.ExtOID(e) == gen.OIDExtSAN {
@@ -613,6 +628,15 @@ func c19Lint(c *mon.Ctx, g lint.Registry, derBytes []byte, name string, want lin
 	c.R.Distinct("lint_inputs", what)
 	if r.Status != want {
 		c.V(fmt.Sprintf("lint|%s|want-%s", name, want), fmt.Sprintf("%s = %s, the address/network test says %s (%s)", name, r.Status, want, what), name, inputs(o), nil)
+	}
+	// the SAME parsed object once more (a caller that lints twice, or with two registries): the addresses it carries
+	// are still the addresses that were encoded, so the verdict is still the classification's
+	if rs2, pv2, _ := o.Lint(g); pv2 == nil && rs2 != nil && rs2.Results[name] != nil {
+		c.R.Count("evaluations", 1)
+		c.R.Count("second_runs_on_the_same_object", 1)
+		if st := rs2.Results[name].Status; st != want && st != lint.NA && st != lint.NE {
+			c.V(fmt.Sprintf("lint|%s|want-%s|second-run", name, want), fmt.Sprintf("%s = %s when the same parsed certificate is linted a second time, the address/network test says %s (%s)", name, st, want, what), name, inputs(o), nil)
+		}
 	}
 	if c.R.Counters["evaluations"]%5003 == 0 {
 		c.R.Sample(6, map[string]any{"lint": name, "input": what, "status": r.Status.String()})
